@@ -411,8 +411,10 @@ def main():
         try:
             mod.search(ctx, broken, ctx.disagreements)
         except Exception:
-            print("infrastructure: search raised\n" + traceback.format_exc())
-            return 2
+            # the failing-input search drives the implementation too; if it trips over what the implementation now does, the broken
+            # obligation / correspondence that triggered the search is still reported (with whatever inputs were found before)
+            ctx.notes.append("the failing-input search raised: " + traceback.format_exc().splitlines()[-1][:200])
+            broken.append({"obligation": "failing-input search", "kind": "the search raised while driving the implementation", "log": traceback.format_exc()[-2000:]})
 
     # --- verdict ----------------------------------------------------------------------------
     known = load_known()
